@@ -68,7 +68,7 @@ int main(void)
 {
   W_setup();
   /* ---- build the message */
-  puts_("8=FIX.4.2\0019=12\00135=A\001", 20);
+  puts_("8=FIX.4.2\001" "9=12\001" "35=A\001", 20);   /* (adjacent literals: CBMC misreads an octal escape followed by a digit) */
   uint8_t drop = nondet_u8(); VF_ASSUME(drop <= 6); cx_drop = drop;
   tok_x(0);
   tok_fixed("49", 2, 49, 'a', drop == 1); tok_fixed("56", 2, 56, 'b', drop == 2); tok_fixed("34", 2, 34, '1', drop == 3); tok_fixed("52", 2, 52, 't', drop == 4);
